@@ -1,6 +1,7 @@
 import Driver.Common
 import IoraModel.Model.EngineLifecycle
 import IoraModel.Model.CloseFanout
+import IoraModel.Model.CloseDeliver
 import IoraModel.Gen.CloseSites
 /-! Driver of component `life` (C02): engine lifecycle acceptor ops + close fan-out lockstep ops. -/
 namespace Iora.Driver.Life
@@ -56,6 +57,7 @@ def reasonOf : Site → String
   | .vAfUnknown => "Config/afUnknown"
   | .vResolveFail => "Resolve/gai"
   | .vAfMismatch => "Config/afMismatch"
+  | .vKeyFail => "Config/keyFail"
   | .vCap => "Config/cap"
   | .ucRecvErr => "Socket/*"
   | .ucWriteErr => "Socket/*"
@@ -78,7 +80,7 @@ def parseA (s : String) : Option A :=
   | "ok" => some .ok | "again" => some .again | "fail" => some .fail | "refused" => some .refused
   | "soerr" => some .soerr | "data" => some .data | "eof" => some .eof | "full" => some .full
   | "part" => some .part | "timeout" => some .timeout | "no" => some .no
-  | "affail" => some .afFail | "nomatch" => some .noMatch
+  | "affail" => some .afFail | "nomatch" => some .noMatch | "keyfail" => some .keyFail | "dgnokey" => some .dgramNoKey
   | _ => if s.startsWith "dg" then (s.drop 2).toNat?.map A.dgram
          else if s.startsWith "ad" then (s.drop 2).toNat?.map A.addrs else none
 
@@ -102,6 +104,7 @@ structure St where
   udp : Bool := false
   g : G := {}
   fan : Fanout.F := {}
+  dl : Deliver.T := {}
 
 def stepf (st : St) : G → In → G := if st.udp then Udp.step else Tcp.step
 
@@ -160,6 +163,49 @@ def parseWhere (s : String) : Option Fanout.Where :=
   else if s.startsWith "O" then (s.drop 1).toNat?.map Fanout.Where.obs
   else if s.startsWith "C" then (s.drop 1).toNat?.map Fanout.Where.cleanup
   else none
+
+/-! Transport-level delivery ops (Model/CloseDeliver.lean); payloads are lower-case hex, `-` = empty -/
+def hexDigit (c : Char) : Option Nat :=
+  if '0' ≤ c ∧ c ≤ '9' then some (c.toNat - '0'.toNat)
+  else if 'a' ≤ c ∧ c ≤ 'f' then some (c.toNat - 'a'.toNat + 10)
+  else none
+
+def parseHexL : List Char → Option (List UInt8)
+  | [] => some []
+  | [_] => none
+  | a :: b :: r => do
+    let x ← hexDigit a
+    let y ← hexDigit b
+    let t ← parseHexL r
+    pure (UInt8.ofNat (x * 16 + y) :: t)
+
+def parseHex (s : String) : Option (List UInt8) := if s = "-" then some [] else parseHexL s.toList
+
+def hexChar (n : Nat) : Char := if n < 10 then Char.ofNat ('0'.toNat + n) else Char.ofNat ('a'.toNat + (n - 10))
+def showHex (b : List UInt8) : String := String.ofList (b.flatMap (fun x => [hexChar (x.toNat / 16), hexChar (x.toNat % 16)]))
+
+def dlShow : Deliver.Out → String
+  | .acceptCb sid => s!"A{sid}"
+  | .connectCb sid => s!"N{sid}"
+  | .dataCb sid b => s!"D{sid}:{showHex b}"
+  | .closeH _ => ""
+  | .modeRet sid ok => s!"M{sid}{if ok then "+" else "-"}"
+  | .recvRet sid (.bytes b) => s!"R{sid}:{showHex b}"
+  | .recvRet sid .timeout => s!"R{sid}:T"
+  | .recvRet sid .peerClosed => s!"R{sid}:P"
+  | .recvRet sid .overflow => s!"R{sid}:V"
+
+def dlStep (st : St) (op : Deliver.Op) : St × String :=
+  let (t, outs) := Deliver.step st.dl op
+  ({ st with dl := t }, if outs.isEmpty then "-" else ",".intercalate (outs.map dlShow))
+
+def parseMode : String → Option Deliver.Mode
+  | "a" => some .async | "s" => some .sync | "d" => some .disabled | _ => none
+
+/-- the model instance: the two source variants are what the translator found in the working tree -/
+def dlInit (dcb : Bool) (maxBuf gcThr : Nat) : Deliver.T :=
+  Deliver.init { hasDataCb := dcb, maxBuf := maxBuf, gcThreshold := gcThr,
+                 eraseAlways := Iora.Gen.CloseSites.closeErasesModeAlways, tombGuard := Iora.Gen.CloseSites.setReadModeRefusesTombstone }
 
 def fanStep (st : St) (op : Fanout.Op) : St × String :=
   let (f, outs) := Fanout.step st.fan op
@@ -233,9 +279,37 @@ def step (st : St) : List String → St × String
   -- close fan-out (Transport over the scripted engine)
   | ["fan", "reset", gl] =>
     match parseBit gl with
-    | some gl => ({ st with fan := { hasGlobal := gl } }, "-")
+    | some gl => ({ st with fan := { hasGlobal := gl }, dl := dlInit true 1048576 1024 }, "-")
     | none => (st, "bad-op")
-  | ["fan", "close", sid] => match sid.toNat? with | some sid => fanStep st (.close sid) | none => (st, "bad-op")
+  | ["fan", "reset", gl, dcb] =>
+    match parseBit gl, parseBit dcb with
+    | some gl, some dcb => ({ st with fan := { hasGlobal := gl }, dl := dlInit dcb 1048576 1024 }, "-")
+    | _, _ => (st, "bad-op")
+  | ["fan", "reset", gl, dcb, mb, gt] =>
+    match parseBit gl, parseBit dcb, mb.toNat?, gt.toNat? with
+    | some gl, some dcb, some mb, some gt => ({ st with fan := { hasGlobal := gl }, dl := dlInit dcb mb gt }, "-")
+    | _, _, _, _ => (st, "bad-op")
+  | ["fan", "close", sid] =>
+    match sid.toNat? with
+    | some sid =>
+      -- one close handler: the callbacks (steps 2-5, 7: Fanout) and the receive-buffer / read-mode clean-up (step 6: Deliver)
+      let (st, ans) := fanStep st (.close sid)
+      ({ st with dl := (Deliver.step st.dl (.engClose sid)).1 }, ans)
+    | none => (st, "bad-op")
+  | ["fan", "data", sid, hex] =>
+    match sid.toNat?, parseHex hex with
+    | some sid, some b => dlStep st (.engData sid b)
+    | _, _ => (st, "bad-op")
+  | ["fan", "mode", sid, m] =>
+    match sid.toNat?, parseMode m with
+    | some sid, some m => dlStep st (.setMode sid m)
+    | _, _ => (st, "bad-op")
+  | ["fan", "recv", sid, n] =>
+    match sid.toNat?, n.toNat? with
+    | some sid, some n => dlStep st (.recv sid n)
+    | _, _ => (st, "bad-op")
+  | ["fan", "connect", sid] => match sid.toNat? with | some sid => dlStep st (.engConnect sid) | none => (st, "bad-op")
+  | ["fan", "accept", sid] => match sid.toNat? with | some sid => dlStep st (.engAccept sid) | none => (st, "bad-op")
   | ["fan", "getdata", sid] =>
     match sid.toNat? with
     | some sid => (st, match st.fan.data sid with | some (tag, _) => s!"D{tag}" | none => "D0")
